@@ -16,7 +16,8 @@ from .core import ModuleInfo, Repo, func_params, norm, walk_no_nested
 
 ELEM, COLL, TELEM, TCOLL = "ELEM", "COLL", "TELEM", "TCOLL"
 COLL_PASS = {"list", "tuple", "iter", "sorted", "reversed"}
-HASH_BUILDERS = {"set", "frozenset"}
+HASH_BUILDERS = {"set", "frozenset", "dict.fromkeys", "OrderedDict.fromkeys", "collections.OrderedDict.fromkeys",
+                 "Counter", "collections.Counter", "unique_everseen", "more_itertools.unique_everseen"}
 
 
 @dataclass
